@@ -1,50 +1,63 @@
 ---- MODULE TraceQuantErr ----
 (***************************************************************************)
-(* C08(c): acceptance of the published rank error over seeded long-stream  *)
-(* trials of the real classes (harness/quant_err_rec.cpp).  All quantities  *)
-(* are integers: normalized ranks in ppm.  Claims judged:                   *)
-(*  KLL / classic: |estimated - true| rank <= get_normalized_rank_error     *)
-(*    (false) and the largest PMF bin error <= get_normalized_rank_error    *)
-(*    (true), each with 99 % confidence, also after a merge tree of 8;      *)
-(*  REQ: the true rank lies within [get_rank_lower_bound, get_rank_upper_   *)
-(*    bound](estimate, s) with the usual confidence of s = 1, 2, 3 standard *)
-(*    deviations (68.27 %, 95.45 %, 99.73 %).                               *)
-(* Verdict: the observed failure fraction must not exceed                   *)
-(*    p + 6 * sqrt(p (1 - p) / T) + 0.02   (p = claimed failure rate,       *)
-(* T = number of TRIALS: the 100 queries of a trial are correlated, so only *)
-(* trials count as independent samples; 6 standard errors + slack: any seed *)
-(* passes on a tree where the claim holds).  Units of 1e-4.                 *)
+(* C08(c): acceptance of the published rank error, and of unbiasedness     *)
+(* where the randomness is not the hooked coin, over seeded trials of the  *)
+(* real classes (harness/quant_err_rec.cpp).  All quantities are integers. *)
+(* Trials carry a `group`; every group is judged on its own:               *)
+(*  kind "eps" (KLL / classic; groups "flat": one sketch or an 8-way merge, *)
+(*    "tree": depth-2 merge trees A.merge(B.merge(C)) with k 16 vs 200 /    *)
+(*    128 in every position): |estimated - true| rank (ppm) <= the sketch's *)
+(*    own get_normalized_rank_error(false), and the largest PMF bin error   *)
+(*    <= get_normalized_rank_error(true), each with 99 % confidence;        *)
+(*  kind "bounds" (REQ): the true rank lies within [get_rank_lower_bound,   *)
+(*    get_rank_upper_bound](estimate, s), s = 1, 2, 3 standard deviations   *)
+(*    (68.27 %, 95.45 %, 99.73 %);                                          *)
+(*  kind "bias" (classic down-sampling merge, groups ds2 / ds4 / ds8 = k    *)
+(*    ratio, both operands estimating): signed rank error in units of 1e-3  *)
+(*    at 9 ranks; the mean must be 0: |sum| <= 6 sqrt(sum of squares)       *)
+(*    + 0.002 T  (6 standard errors of the sum, the second moment bounding  *)
+(*    the variance, + slack).                                               *)
+(* Failure fractions: observed <= p + 6 sqrt(p (1 - p) / T) + 0.02 with     *)
+(* p the claimed failure rate and T the number of TRIALS of the group (the  *)
+(* queries of one trial are correlated).  Any seed passes on a tree where   *)
+(* the claims hold.  Units of 1e-4.                                         *)
 (***************************************************************************)
-EXTENDS TraceCommon
-VARIABLES T, q, exc, pmfexc, fail
-tvars == <<l, T, q, exc, pmfexc, fail>>
-ISqrt(x) == CHOOSE r \in 0..5000 : r * r <= x /\ x < (r + 1) * (r + 1)
-\* allowed failure fraction (units of 1e-4) for a claimed failure rate p4 (units of 1e-4) over t trials
+EXTENDS TraceCommon, Integers
+VARIABLES acc     \* group -> [T, q, exc, pmfexc, fail, sum, sq]
+tvars == <<l, acc>>
+ISqrt(x) == CHOOSE r \in 0..46341 : r * r <= x /\ x < (r + 1) * (r + 1)
 Allowed(p4, t) == p4 + 6 * ISqrt((p4 * (10000 - p4)) \div t) + 200
 Count(s, P(_)) == Cardinality({i \in DOMAIN s : P(i)})
-TBegin == IsEvent("Begin") /\ T' = 0 /\ q' = 0 /\ exc' = 0 /\ pmfexc' = 0 /\ fail' = <<0, 0, 0>>
-TTrial == IsEvent("Trial") /\ LET e == Log[l] IN
+Abs(x) == IF x < 0 THEN 0 - x ELSE x
+Zero == [T |-> 0, q |-> 0, exc |-> 0, pmfexc |-> 0, fail |-> <<0, 0, 0>>, sum |-> <<>>, sq |-> <<>>]
+Get(g) == IF g \in DOMAIN acc THEN acc[g] ELSE Zero
+Out(e, s) == Count(e.truth, LAMBDA i : ~(e["lb" \o s][i] - 1 <= e.truth[i] /\ e.truth[i] <= e["ub" \o s][i] + 1))
+TBegin == IsEvent("Begin") /\ acc' = <<>>
+TTrial == IsEvent("Trial") /\ LET e == Log[l]  a == Get(e.group) IN
   /\ Chk("n", e.sn = e.n)
-  /\ T' = T + 1
-  /\ IF e.kind = "eps"
-     THEN /\ q' = q + Len(e.errs)
-          /\ exc' = exc + Count(e.errs, LAMBDA i : e.errs[i] > e.eps)
-          /\ pmfexc' = pmfexc + (IF e.pmferr > e.epspmf THEN 1 ELSE 0)
-          /\ UNCHANGED fail
-     ELSE /\ q' = q + Len(e.truth)
-          /\ fail' = <<fail[1] + Count(e.truth, LAMBDA i : ~(e.lb1[i] - 1 <= e.truth[i] /\ e.truth[i] <= e.ub1[i] + 1)),
-                       fail[2] + Count(e.truth, LAMBDA i : ~(e.lb2[i] - 1 <= e.truth[i] /\ e.truth[i] <= e.ub2[i] + 1)),
-                       fail[3] + Count(e.truth, LAMBDA i : ~(e.lb3[i] - 1 <= e.truth[i] /\ e.truth[i] <= e.ub3[i] + 1))>>
-          /\ UNCHANGED <<exc, pmfexc>>
+  /\ acc' = (e.group :>
+      (CASE e.kind = "eps" ->
+              [a EXCEPT !.T = @ + 1, !.q = @ + Len(e.errs), !.exc = @ + Count(e.errs, LAMBDA i : e.errs[i] > e.eps),
+                        !.pmfexc = @ + (IF e.pmferr > e.epspmf THEN 1 ELSE 0)]
+         [] e.kind = "bounds" ->
+              [a EXCEPT !.T = @ + 1, !.q = @ + Len(e.truth),
+                        !.fail = <<@[1] + Out(e, "1"), @[2] + Out(e, "2"), @[3] + Out(e, "3")>>]
+         [] e.kind = "bias" ->
+              [a EXCEPT !.T = @ + 1,
+                        !.sum = [j \in DOMAIN e.errs |-> (IF j \in DOMAIN a.sum THEN a.sum[j] ELSE 0) + e.errs[j]],
+                        !.sq = [j \in DOMAIN e.errs |-> (IF j \in DOMAIN a.sq THEN a.sq[j] ELSE 0) + e.errs[j] * e.errs[j]]])) @@ acc
 TVerdict == IsEvent("Verdict") /\ LET e == Log[l] IN
-  /\ Chk("harness:trials", e.trials = T /\ T >= 8)
-  /\ Chk("rank-error-within-published-epsilon", exc * 10000 <= Allowed(100, T) * q)
-  /\ Chk("pmf-error-within-published-epsilon", pmfexc * 10000 <= Allowed(100, T) * T)
-  /\ Chk("req-bounds-1-std-dev", fail[1] * 10000 <= Allowed(3173, T) * q)
-  /\ Chk("req-bounds-2-std-dev", fail[2] * 10000 <= Allowed(455, T) * q)
-  /\ Chk("req-bounds-3-std-dev", fail[3] * 10000 <= Allowed(27, T) * q)
-  /\ UNCHANGED <<T, q, exc, pmfexc, fail>>
-TInit == l = 1 /\ T = 0 /\ q = 0 /\ exc = 0 /\ pmfexc = 0 /\ fail = <<0, 0, 0>>
+  /\ Chk("harness:groups", DOMAIN acc # {} /\ \A g \in DOMAIN acc : acc[g].T >= 6)
+  /\ \A g \in DOMAIN acc : LET a == acc[g] IN
+       /\ Chk("rank-error-within-published-epsilon", a.exc * 10000 <= Allowed(100, a.T) * a.q)
+       /\ Chk("pmf-error-within-published-epsilon", a.pmfexc * 10000 <= Allowed(100, a.T) * a.T)
+       /\ Chk("req-bounds-1-std-dev", a.fail[1] * 10000 <= Allowed(3173, a.T) * a.q)
+       /\ Chk("req-bounds-2-std-dev", a.fail[2] * 10000 <= Allowed(455, a.T) * a.q)
+       /\ Chk("req-bounds-3-std-dev", a.fail[3] * 10000 <= Allowed(27, a.T) * a.q)
+       /\ \A j \in DOMAIN a.sum :
+            Chk("downsampling-merge-unbiased", Abs(a.sum[j]) <= 6 * ISqrt(a.sq[j]) + 2 * a.T)
+  /\ UNCHANGED acc
+TInit == l = 1 /\ acc = <<>>
 TNext == TBegin \/ TTrial \/ TVerdict
 TSpec == TInit /\ [][TNext]_tvars
 ====
